@@ -7,8 +7,14 @@ Prints one line per seeded change: CAUGHT (with or without failing input) / MISS
 """
 import json, os, re, subprocess, sys
 from pathlib import Path
-VERIF = Path(__file__).resolve().parent.parent
+VERIF0 = Path(__file__).resolve().parent.parent
 repo = Path(sys.argv[1]).resolve()
+# run from an ISOLATED copy of /verif (its own lake project and Gen files): a seeded change may alter the regenerated constants, and
+# other work (proof agents, registered checks) must never see that in the shared project
+ISO = Path(os.environ.get("SEEDED_ENV", "/tmp/seeded_env"))
+ISO.mkdir(parents=True, exist_ok=True)
+subprocess.run(["rsync", "-a", "--delete", "--exclude", ".git", "--exclude", "replays", "--exclude", "evidence", str(VERIF0) + "/", str(ISO / "verif") + "/"], check=True)
+VERIF = ISO / "verif"
 ids = sys.argv[2:] or sorted(p.name for p in (VERIF / "seeded").iterdir() if p.is_dir())
 env = dict(os.environ, AGP_TPF_REPO=str(repo), VERIF_MODEL_ONLY="1")
 res = {}
